@@ -32,7 +32,7 @@ SPACE = {
  "C17": "all <=3/4-line texts over a 30-fragment alphabet x 4 line-terminator forms x 8 rewriters + rule models",
  "C18": "64-message alphabet depth 3/4 (+1); all single / paired edits on 8 documents (with and without rangeLength); position sweep",
  "C19": "CLI scenarios (file sets x flags, argument forms, output files, path spellings) + RLIMIT_FSIZE at every byte (short write / kill) + strace faults",
- "C20": "85 families x 15 entry points x size ladder, block-count and allocation growth",
+ "C20": "88 families x 15 entry points x size ladder, block-count and allocation growth",
 }
 ROWS = []
 for i in range(1, 21):
